@@ -4,7 +4,7 @@ import random
 from harness import stages
 from harness.checks import common, c07
 
-SPELLINGS = ['abs', 'rel', 'dotrel', 'updown', 'viaparentlink', 'dblslash', 'slash1', 'slash2', 'slash3', 'relslash']
+SPELLINGS = ['abs', 'rel', 'dotrel', 'updown', 'viaparentlink', 'dblslash', 'linkdotdot', 'slash1', 'slash2', 'slash3', 'relslash']
 
 
 def run(chk):
